@@ -22,6 +22,7 @@ func (q *FieldQuery) Hash() string {
 		return q.hash
 	}
 	b, _ := Marshal(q)
+	verifYield("enc-query:hash")
 	q.hash = string(b)
 	return q.hash
 }
